@@ -682,6 +682,19 @@ pub fn flow_digest_by_name(rec: &mut Rec, scheme: &str, u: usize) -> Option<Resu
             }
         }
     });
+    // the same two schemes over a second curve (generic code instantiated twice in one process)
+    if scheme == "MAR377" {
+        let us = slice_f_universes::<SMar377>();
+        if u < us.len() {
+            out = Some(slice_f_flow::<SMar377>(rec, &us[u]));
+        }
+    }
+    if scheme == "SON377" {
+        let us = slice_f_universes::<SSon377>();
+        if u < us.len() {
+            out = Some(slice_f_flow::<SSon377>(rec, &us[u]));
+        }
+    }
     out
 }
 
@@ -704,12 +717,12 @@ pub fn print_flow_digest(seed: u64, scheme: &str, u: usize) {
 /// already polluted process.
 pub fn slice_h_run(rec: &mut Rec) {
     use std::collections::BTreeMap;
-    let names = ["MAR", "SON", "IPA", "PST", "HYR", "LIG", "MLL", "BRK"];
+    let names = ["MAR", "SON", "IPA", "PST", "HYR", "LIG", "MLL", "BRK", "MAR377", "SON377"];
     let exe = match std::env::current_exe() {
         Ok(e) => e,
         Err(_) => return,
     };
-    rec.scope(format!("slice H: every ordered pair of the {} trait schemes, flow of the first then flows (universes 0 and 2) of the second, compared with fresh-process digests", names.len()));
+    rec.scope(format!("slice H: every ordered pair of the {} trait-scheme instantiations (Marlin and Sonic also over BLS12-377), flow of the first then flows (universes 0 and 2) of the second, compared with fresh-process digests", names.len()));
     let mut fresh: BTreeMap<(String, usize), Option<String>> = BTreeMap::new();
     for x in names.iter() {
         for y in names.iter() {
